@@ -357,6 +357,10 @@ func (f *frame) contractCallEnv(ct *Contract, key string, fn *ssa.Function, extr
 				continue
 			}
 			switch ft.T.K {
+			case KIface:
+				// the object behind the interface value is new: make room for it below the new frontier
+				nr := u.nextRef(f.cur)
+				u.setGhost(f.cur, "nextRef", Term{"(+ " + nr.S + " 1)", sInt})
 			case KSlice:
 				el := ft.T.Go.Underlying().(*types.Slice).Elem()
 				r := u.alloc(f.cur, types.NewPointer(types.NewArray(el, 0)))
